@@ -5,7 +5,7 @@ SPEC = {
     "runners": [{
         "kind": "wqcases", "module": "CorrC09", "harness": "wqscript", "prop": "C09",
         "corr": "Run/CorrC09.v + Run/CorrWQ.v (model of the work queue vs /repo/workqueue, scripted schedules)",
-        "rule": 'scripted: each case = one script (bursts of Enqueue that fill the queue and block producers, completions with nil AND with error results (a third of the random scripts without any error subscriber, a third with subscribers that receive, a third without errors; corpus scripts: failing items followed by ordinary ones on one worker, all items failing with a blocked producer), ResizeQueueLength; one stimulus at a time, quiescence from goroutine stacks) run on the real queue and replayed in Coq on Model/WQ.v with all internal interleavings; observed = started work functions, returned Enqueue calls; plus a black-box monitor on the log: running <= W always and running = min(unfinished, W) at every quiescent point (a failing item counts as finished: exact as long as not both an error and a subscriber have occurred). Generated as corpus, every word over {enqueue, enqueue, finish oldest, finish newest} up to a length bound, adaptive random bursts with W in 1..4. distinct = by (W, L, stimuli); non-trivial = a producer was blocked or an item had to wait.',
+        "rule": 'scripted: each case = one script (bursts of Enqueue that fill the queue and block producers, completions with nil AND with error results (a third of the random scripts without any error subscriber, a third with subscribers that receive, a third without errors; corpus scripts: failing items followed by ordinary ones on one worker, all items failing with a blocked producer), ResizeQueueLength; one stimulus at a time, quiescence from goroutine stacks) run on the real queue and replayed in Coq on Model/WQ.v with all internal interleavings; observed = started work functions, returned Enqueue calls; plus a black-box monitor on the log: running <= W always and running = min(unfinished, W) at every quiescent point (a failing item counts as finished: exact as long as not both an error and a subscriber have occurred). The queue is built from an OPTION LIST whose effective W and L are computed in Coq (Model/WQ.v effective: defaults NumCPU / 2*NumCPU, last option of each kind wins): 14 configuration scripts (WithWorkers/WithQueueLength in both orders, one option alone with the other at its default, repeated options, ResizeQueueLength right after construction) each fill the queue with gated work until two producers block, complete three items and drain; every exhaustive/random script picks one of the two option orders; Enqueue options (WithName/WithPriority/WithAdjustPriority) come in every order, priority 1 sometimes only by default. Black-box bounds on the log while nothing has completed: returned Enqueue calls <= L+2W+1, and >= W+L+1 while a call is blocked. Generated as corpus, every word over {enqueue, enqueue, finish oldest, finish newest} up to a length bound, adaptive random bursts with W in 1..4. distinct = by (W, L, stimuli); non-trivial = a producer was blocked or an item had to wait.',
     }, {
         "kind": "wqstress", "name": "stress", "prop": "C09",
         "rule": 'free-running: each case = one queue under real scheduling (-race) with an atomic current/max counter inside the work functions, every n-th item failing (n random, 0 = none) with 0-2 receiving error subscribers: max concurrency <= W, nothing lost, no Enqueue hangs; non-trivial = more items than W+L+1.',
